@@ -180,14 +180,17 @@ class World (object):
     # the bridge learns the source on every frame it sees
     lst = seen.setdefault(src, [])
     moved = bool(lst) and lst[-1] != inp
+    returned = moved and inp in lst
     if inp in lst: lst.remove(inp)
     lst.append(inp)
-    # "...to exactly the most recent such port whenever no older cached flow for that traffic is still installed":
-    # a frame that shows the source on a NEW port but is absorbed in the switch by a flow installed earlier (the host
-    # moved away and came back while the flow for its old traffic was still cached; forwarding and drop flows alike,
-    # both match on the ingress port) never reaches the controller, so the controller cannot know the move.
-    hidden_before = self.hidden[sw].get(dst, False)
-    self.hidden[sw][src] = (absorbed in ("drop", "fwd")) and moved
+    # Was the destination's most recent appearance absorbed inside the switch by an already installed flow, so that
+    # the controller could not see it?  With flows that match on the ingress port this can only happen when a host
+    # RETURNS to a port it used before while the flow for its old traffic is still cached ("after-return"); a frame
+    # from a port the source never used being absorbed ("on-new-port") means a flow matches more than it should.
+    hidden_before = self.hidden[sw].get(dst)
+    self.hidden[sw][src] = None
+    if absorbed in ("drop", "fwd") and moved:
+      self.hidden[sw][src] = "after-return" if returned else "on-new-port"
     ports = [q for q, _ in ems]
     where = "switch %d, frame %s->%s in port %d" % (sw + 1, src.hex()[-2:], dst.hex(), inp)
     if inp in ports: self.fail("back-out-ingress", "%s: emitted on its ingress port" % where)
@@ -207,13 +210,14 @@ class World (object):
     if not set(ports) <= set(known_before):
       self.fail("known:wrong-port", "%s: destination was seen on port(s) %r, emitted on %r" % (where, known_before, ports))
       return
-    if missed and not hidden_before:
+    if missed:
       # went to the controller: must go to exactly the most recent port (nothing if that is the ingress port)
       want = [known_before[-1]] if known_before[-1] != inp else []
       if ports != want:
-        self.fail("known:not-most-recent",
-                  "%s: handled by the controller, destination most recently seen on port %d (history %r), emitted on %r"
-                  % (where, known_before[-1], known_before, ports))
+        self.fail("known:not-most-recent" + (":move-hidden-by-cached-flow:" + hidden_before if hidden_before else ""),
+                  "%s: handled by the controller, destination most recently seen on port %d (history %r%s), emitted on %r"
+                  % (where, known_before[-1], known_before,
+                     "; its last frame was absorbed in the switch by an older cached flow, " + hidden_before if hidden_before else "", ports))
 
   def check_buffers (self):
     used = self.net.buffers_in_use()
@@ -230,7 +234,7 @@ class World (object):
     for c in self.net.cs.cons:
       learn.append(sorted((str(k), v) for l in self._ls(c) for k, v in l.macToPort.items()))
     return (tabs, learn, [sorted((k, tuple(v)) for k, v in s.items()) for s in self.seen],
-            [sorted(s.items()) for s in self.hidden], sorted(self.where.items()),
+            [sorted((k, v or "") for k, v in s.items()) for s in self.hidden], sorted(self.where.items()),
             self.moved, [tuple(x is not None for x in st.sw._packet_buffer) for st in self.net.sw])
 
   def _ls (self, con):
